@@ -47,26 +47,26 @@ def flat(ts):
     return torch.cat([t.reshape(-1) for t in ts])
 
 
-def oracle_fwd_grad(ck, dims, m, J, filt, shape):
+def oracle_fwd_grad(ck, dims, m, J, filt, shape, chan=1):
     """autograd of the forward module vs J^T g with J assembled from the forward pass on unit impulses"""
     rng = ck.rng
     L = len(filt[0])
     fwd, _ = modules(dims, m, J, filt, tuple(shape))
-    n_in = int(np.prod(shape))
-    desc = '%dD forward-module gradient mode=%s J=%d L=%d shape=%s' % (dims, gen.MODE_NAME[m], J, L, tuple(shape))
-    replay = {'oracle': 'fwd_grad', 'dims': dims, 'm': m, 'J': J, 'filt': [arr_json(f) for f in filt], 'shape': list(shape), 'seed_note': 'cotangent drawn from the check PRNG', 'force': FORCE[0]}
+    n_in = chan * int(np.prod(shape))
+    desc = '%dD forward-module gradient mode=%s J=%d L=%d shape=%s channels=%d' % (dims, gen.MODE_NAME[m], J, L, tuple(shape), chan)
+    replay = {'oracle': 'fwd_grad', 'dims': dims, 'm': m, 'J': J, 'filt': [arr_json(f) for f in filt], 'shape': list(shape), 'seed_note': 'cotangent drawn from the check PRNG', 'force': FORCE[0], 'chan': chan}
     try:
         with torch.no_grad():
             cols = []
             for k in range(n_in):
                 e = torch.zeros(n_in); e[k] = 1
-                yl, yh = fwd(e.reshape(1, 1, *shape))
+                yl, yh = fwd(e.reshape(1, chan, *shape))
                 cols.append(flat([yl] + list(yh)))
             Jm = torch.stack(cols)               # n_in x n_out
     except Exception:
         ck.oracle_ok(('fwd-raises', dims, m), nontriv=False, group='forward-raises')
         return None
-    x = T(gen.int_tensor(rng, (1, 1) + tuple(shape))).requires_grad_(True)
+    x = T(gen.int_tensor(rng, (1, chan) + tuple(shape))).requires_grad_(True)
     yl, yh = fwd(x)
     outs = [yl] + list(yh)
     cots = [T(gen.int_tensor(rng, tuple(o.shape))) for o in outs]
@@ -178,6 +178,12 @@ def oracle(ck, extended):
     rt.guard(ck, oracle_fwd_grad, ck, 2, 2, 1, f4, (5, 7))
     rt.guard(ck, oracle_fwd_grad, ck, 2, 2, 1, (np.array([1., 2.]), np.array([2., -1.])), (3, 5))
     rt.guard(ck, oracle_fwd_grad, ck, 1, 2, 2, f4, (9,))
+    # several channels (Jacobian over all of them, cotangents also in channels-last / time-major layout): odd sizes in periodization
+    # and the zero mode, 1-D and 2-D
+    rt.guard(ck, oracle_fwd_grad, ck, 2, 2, 1, f4, (5, 7), 2)
+    rt.guard(ck, oracle_fwd_grad, ck, 2, 2, 2, (np.array([1., 2.]), np.array([2., -1.])), (6, 5), 3)
+    rt.guard(ck, oracle_fwd_grad, ck, 1, 2, 2, f4, (9,), 2)
+    rt.guard(ck, oracle_fwd_grad, ck, 2, 0, 1, f4, (5, 4), 2)
     # covering cases: modules whose state was taken over from another instance (other filters of the same lengths, then
     # load_state_dict and an exact dtype round trip; or the deferred meta-device construction): the backward pass must
     # follow the CURRENT state in every mode
@@ -223,7 +229,7 @@ def replay(ck, path):
     filt = tuple(arr_from(a) for a in f['filt'])
     FORCE[0] = f.get('force')
     if f['oracle'] == 'fwd_grad':
-        oracle_fwd_grad(ck, f['dims'], f['m'], f['J'], filt, tuple(f['shape']))
+        oracle_fwd_grad(ck, f['dims'], f['m'], f['J'], filt, tuple(f['shape']), f.get('chan', 1))
     else:
         oracle_inv_grad(ck, f['dims'], f['m'], f['J'], filt, f['size'], f['mask'])
     for fl in ck.failures:
